@@ -495,6 +495,9 @@ func (x *exec) specArith(op, a, b string, t types.Type) string {
 			if k, ok := maskBits(b); ok {
 				return fmt.Sprintf("(mod %s %s)", a, new(big.Int).Lsh(big.NewInt(1), uint(k)).String())
 			}
+			if m, ok := andRun(a, b, false); ok {
+				return m
+			}
 		}
 		fail("spec: operator %s unsupported in arith int", op)
 	}
@@ -524,7 +527,12 @@ func (x *exec) specShift(op string, a, b *Val) string {
 	if x.c.Mode == ModeInt {
 		k, ok := new(big.Int).SetString(x.term(b), 10)
 		if !ok {
-			fail("spec: non-constant shift in arith int")
+			// exact (mathematical) shift by a count in 0..MathBits-1
+			x.pow2BigTable()
+			if op == "<<" {
+				return fmt.Sprintf("(* %s (pow2!big %s))", x.term(a), x.term(b))
+			}
+			return fmt.Sprintf("(div %s (pow2!big %s))", x.term(a), x.term(b))
 		}
 		p := new(big.Int).Lsh(big.NewInt(1), uint(k.Int64())).String()
 		if op == "<<" {
@@ -595,6 +603,19 @@ func (x *exec) evCall(n *ECall, env *Env, hint types.Type) *Val {
 			// csprng(b): the buffer / key object b was filled by the operating system's secure random source
 			v := x.ev(n.Args[0], env, nil)
 			return x.mkVal(Sel(x.h.get(env.st, csprngArr, "(Array Int Bool)"), x.refOf(v)), types.Typ[types.Bool])
+		case "first":
+			// first(v): the first value assigned to the local v (only meaningful as the subject of a case split,
+			// where any term is sound: the cases are exhaustive whatever the term denotes)
+			if id2, ok := n.Args[0].(*EId); ok {
+				if v := x.firstStore[id2.Name]; v != nil {
+					return v
+				}
+			}
+			fail("spec: first(%s): no assignment to such a local seen", ExprString(n.Args[0]))
+		case "bigval":
+			// bigval(p): the mathematical integer held by the *big.Int p (ghost field, arith int only)
+			v := x.ev(n.Args[0], env, nil)
+			return x.mkVal(Sel(x.h.get(env.st, bigvalArr, x.bigvalSort()), x.term(v)), MathInt)
 		case "setsum":
 			return x.setSum(n, env)
 		case "wrapu32", "wrapi64", "wrapu64", "wrapi32":
@@ -633,6 +654,20 @@ func (x *exec) evCall(n *ECall, env *Env, hint types.Type) *Val {
 		// spec function?
 		if sf := x.p.Contracts.Specs[env.specPkg()][id.Name]; sf != nil {
 			return x.callSpec(sf, n.Args, env)
+		}
+		// a spec function declared in exactly one other contract file is visible everywhere
+		{
+			var only *Contract
+			cnt := 0
+			for _, m := range x.p.Contracts.Specs {
+				if sf := m[id.Name]; sf != nil {
+					only = sf
+					cnt++
+				}
+			}
+			if cnt == 1 {
+				return x.callSpec(only, n.Args, env)
+			}
 		}
 		// type conversion?
 		if _, isVar := env.vars[id.Name]; !isVar && len(n.Args) == 1 {
@@ -1004,7 +1039,21 @@ func (x *exec) compileSpec(sf *Contract, env *Env) *specFn {
 		x.c.Axiom([]string{f.name}, fmt.Sprintf("(forall (%s) (! (= %s %s) :pattern (%s)))", strings.Join(bind, " "), app, body, app))
 		return f
 	}
-	x.c.DefineFun(f.name, params, x.c.SortOf(f.rt), body, strings.Contains(body, "("+f.name+" "))
+	rec := strings.Contains(body, "("+f.name+" ")
+	x.c.DefineFun(f.name, params, x.c.SortOf(f.rt), body, rec)
+	if rec && sf.Unroll > 0 {
+		// the same definition unfolded sf.Unroll times: level i is the body with the recursive call
+		// replaced by level i-1 (level 0 = the recursive function itself). Semantically identical;
+		// it lets the solvers evaluate applications to small arguments by propagation.
+		base := f.name
+		prev := base
+		for i := 1; i <= sf.Unroll; i++ {
+			lvl := fmt.Sprintf("%s!u%d", base, i)
+			x.c.DefineFun(lvl, params, x.c.SortOf(f.rt), strings.ReplaceAll(body, "("+base+" ", "("+prev+" "), false)
+			prev = lvl
+		}
+		f.name = prev
+	}
 	return f
 }
 
@@ -1030,6 +1079,9 @@ func (p *Prog) resolveType(text string, pkg *types.Package) types.Type {
 func (p *Prog) typeOfAST(e ast.Expr, pkg *types.Package) types.Type {
 	switch n := e.(type) {
 	case *ast.Ident:
+		if n.Name == "integer" {
+			return MathInt
+		}
 		if obj := types.Universe.Lookup(n.Name); obj != nil {
 			if tn, ok := obj.(*types.TypeName); ok {
 				return tn.Type()
